@@ -129,6 +129,14 @@ def check(ctx):
             if rule == "R17.2": return super().ob(rule, key, ok, site, detail, nontrivial, undecided)
             return ok
     C17.check(OnlyRef(ctx, "R03.4"))
+    # ... and the pre-load ADDS to the count: the handle given to send_derived may already be shared (a listener re-broadcasting what it received); a `store(1 + n)`
+    # forgets the outstanding handles and the payload is freed while a slower listener still has its copy queued (shared with C14 R14.1)
+    C14 = importlib.import_module("props.C14")
+    class OnlyCount(util.PrefixedCtx):
+        def ob(self, rule, key, ok, site="", detail="", nontrivial=True, undecided=False):
+            if rule == "R14.1": return super().ob(rule, key, ok, site, detail, nontrivial, undecided)
+            return ok
+    C14.check(OnlyCount(ctx, "R03.4"))
     # ------------------------------------------------------------------ R03.5 log channel (shared with C09)
     C09 = importlib.import_module("props.C09")
     class OnlyLog(util.PrefixedCtx):
